@@ -90,7 +90,8 @@ def class_ok(expected: str, got: str) -> bool:
 
 def _rank_desc(rng, keys, rngk, kinds_for=None):
     return {"keys": list(keys), "rng": list(rngk),
-            "kinds": {k: (kinds_for or [rng.choice(KINDS) for _ in range(rng.randint(1, 3))]) for k in keys}}
+            # a stateful may have NOTHING to save (nn.ReLU(), StateDict()): an empty state dict, on this rank only
+            "kinds": {k: (kinds_for or [rng.choice(KINDS) for _ in range(rng.randint(0 if rng.random() < 0.2 else 1, 3))]) for k in keys}}
 
 
 def gen_config(rng) -> Dict[str, Any]:
